@@ -256,3 +256,43 @@ PROPS["C11"] = dict(
                  103: "identical application gives the same transaction", 104: "decoding malformed bytes panicked or aborted",
                  105: "an unknown or retired version was not refused"},
 )
+
+FRONT_TB = TB_COMMON + [
+    "the front end is modelled on the generator's own syntax tree (coq/Surface.v): parsing is tied by printing that tree as source text (two layouts) and comparing what the implementation lowers it to with coq/Lower.v; the analyzer's acceptance is modelled in coq/Analyze.v and compared verdict by verdict",
+    "the model covers the core of the language (DESIGN 5.1); type aliases, policy constructors with ref/script and tuple variant cases are outside it",
+    "Strategy opaque [deep lower_expr] in Lower_proofs.v is a conversion-order hint for the kernel (efficiency only)",
+]
+FRONT_MODEL = ["Base.v", "Assets.v", "Select.v", "Tir.v", "Reduce.v", "Surface.v", "Lower.v", "Analyze.v"]
+
+PROPS["C13"] = dict(
+    level="proof", runner="C13", model_files=FRONT_MODEL, proof_files=["Lower_proofs.v"], check_files=["Front_check.v"],
+    theorems=["C13_accepted_programs_lower", "C13_accepted_expressions_lower", "C13_static_type_stable"],
+    partial=["the theorem is about Analyze.v / Lower.v; that these are the code's analyzer and lowering is the per-case tie (clauses 1-3) on valid and mutated programs"],
+    trusted_base=FRONT_TB, assumptions=["programs of the modelled core; asset definitions with literal policy and name"],
+    keep_ids=_only(lambda i: i in (1, 2, 3) or 130 <= i < 150),
+    check_names={1: "the analyzer's verdict is the model's", 2: "lowering outcome kind agrees", 3: "lowered IR agrees",
+                 130: "Workspace::lower fails or panics on an accepted program", 131: "an accepted program does not lower (unclassified)",
+                 132: "accepted, lowering panics: missing field without spread", 133: "accepted, lowering panics: asset constructor without amount",
+                 134: "accepted, lowering panics: name of the wrong kind as a value", 135: "accepted, lowering fails: arity / unknown function",
+                 136: "accepted, lowering fails: malformed hex literal", 137: "accepted, lowering fails: unresolved chain of definitions",
+                 138: "accepted, lowering fails: directive lacks a required field", 139: "accepted, lowering fails: invalid property", 140: "accepted, lowering fails: invalid symbol"},
+)
+PROPS["C17"] = dict(
+    level="proof", runner="C17", needs_tx3c=True, model_files=FRONT_MODEL, proof_files=["Front_proofs.v"], check_files=["Front_check.v"],
+    theorems=["C17_argument_keys_do_not_collide", "C17_lowercase_idempotent", "C17_reported_params_sorted"],
+    partial=["that every name the lowered IR requires is the lower-cased spelling of a declared name is checked per emitted TII (clauses 171, 174), not yet a theorem about Lower.v"],
+    trusted_base=FRONT_TB + ["the TII is read from the file written by the tx3c binary built from /repo's current tree"],
+    assumptions=[],
+    keep_ids=_only(lambda i: i in (1, 2, 3) or 170 <= i < 180),
+    check_names={171: "every argument key the embedded IR requires is declared by the interface under the same spelling",
+                 172: "the envelope in the TII decodes to the IR that lowering produced",
+                 173: "two declared names share a key", 174: "a declared name is required by the IR under another spelling"},
+)
+PROPS["C18"] = dict(
+    level="proof", runner="C18", needs_tx3c=True, model_files=FRONT_MODEL + ["PlutusData.v", "Serde.v"], proof_files=["Front_proofs.v"], check_files=["Front_check.v"],
+    theorems=["C18_key_order_independent_of_iteration_order", "C18_key_order_sorted", "C18_key_order_total"],
+    partial=["determinism of parsing and analysis themselves is observed (20 repetitions in process, 3 fresh processes, 3 TII files), not modelled: the Gallina model is a function by construction, the theorem covers the one place where the code iterates a randomly seeded hash map"],
+    trusted_base=FRONT_TB, assumptions=["distinct field names per directive (the IR type is a map)"],
+    keep_ids=_only(lambda i: i in (1, 2, 3) or 180 <= i < 190),
+    check_names={181: "repeated lowering + encoding of one source gives different bytes", 182: "the TII file differs between processes"},
+)
